@@ -138,6 +138,10 @@ def run(unit, functions, repo, scratch, timeout=1800, deep=False):
                     fails.append(dict(function=fn, clause="C08:%s.terminates" % fn.split("::")[-1], input=hl[-1][len("HUNG "):][:600] + vnote))
                 elif pl and fn:
                     fails.append(dict(function=fn, clause="C08:%s.no-panic" % fn.split("::")[-1], input=pl[-1][len("PANICKED "):][:600] + vnote))
+                elif fn and q.returncode is not None and q.returncode < 0:
+                    # killed by a signal (stack overflow, abort): the code under test crashed the process; failures printed
+                    # before the crash have been collected above
+                    fails.append(dict(function=fn, clause="C08:%s.no-crash" % fn.split("::")[-1], input="the harness process was killed by signal %d (%s)%s" % (-q.returncode, " ".join(q.stderr.split())[-300:], vnote)))
                 else:
                     done = False
                     note_parts.append("harness aborted for %s (rc=%s)%s: %s" % (fn, q.returncode, vnote, (q.stdout + q.stderr)[-800:]))
